@@ -21,6 +21,7 @@ import (
 	"fmt"
 	"io"
 	"log"
+	"net/http/httptest"
 	"os"
 	"path/filepath"
 	"regexp"
@@ -30,7 +31,15 @@ import (
 	"syscall"
 	"time"
 
+	"github.com/go-openapi/loads"
+	oaruntime "github.com/go-openapi/runtime"
+	"github.com/go-openapi/runtime/middleware"
+
 	"github.com/ErdemOzgen/blackdagger/internal/client"
+	fdag "github.com/ErdemOzgen/blackdagger/internal/frontend/dag"
+	"github.com/ErdemOzgen/blackdagger/internal/frontend/gen/restapi"
+	"github.com/ErdemOzgen/blackdagger/internal/frontend/gen/restapi/operations"
+	"github.com/ErdemOzgen/blackdagger/internal/frontend/gen/restapi/operations/dags"
 	"github.com/ErdemOzgen/blackdagger/internal/dag"
 	"github.com/ErdemOzgen/blackdagger/internal/dag/scheduler"
 	"github.com/ErdemOzgen/blackdagger/internal/logger"
@@ -84,6 +93,9 @@ func texts0() []*Text {
 		// headline fine, STEPS invalid (only a loader that builds the steps notices)
 		{ID: "T9", Kind: "invalid-step", data: []byte("description: fine\nsteps:\n  - name: s1\n")},
 		{ID: "T10", Kind: "invalid-step", data: []byte("description: fine\nsteps:\n  - name: s1\n    command: echo x\n    executor: 17\n")},
+		// valid, with a `name:` headline that differs from the file name: equal to the id of another DAG (b) / to none
+		{ID: "T12", Kind: "valid-named", data: []byte("name: b\nsteps:\n  - name: n1\n    command: echo named-b\n")},
+		{ID: "T13", Kind: "valid-named", data: []byte("name: ghost\nsteps:\n  - name: n1\n    command: echo named-ghost\n")},
 		{ID: "T11", Kind: "invalid-step", data: []byte("description: fine\nsteps:\n  - name: s1\n    call:\n      function: nope\n      args:\n        a: 1\n")},
 	}
 }
@@ -155,7 +167,8 @@ type Dump struct {
 }
 
 type Op struct {
-	Op    string `json:"op"` // create createraw save rename srename delete list get suspend run
+	Op    string `json:"op"` // create createraw save rename srename delete list get suspend run; through the API handler: adelete arename asave adetails
+	Code  int    `json:"code,omitempty"` // a-ops: the HTTP status of the real handler
 	Name  string `json:"name,omitempty"`
 	New   string `json:"new,omitempty"`
 	Text  string `json:"text,omitempty"`
@@ -186,7 +199,7 @@ type Case struct {
 
 var base = time.Date(2024, 1, 1, 0, 0, 0, 0, time.UTC)
 
-var names = []string{"a", "ab", "a b", "a.b", "b", "a.yaml", "a.yml", "abc", "a.b.yaml", "c d.e"}
+var names = []string{"a", "ab", "a b", "a.b", "b", "a.yaml", "a.yml", "abc", "a.b.yaml", "c d.e", "A", "Ab"}
 
 // names used by the directed sequences only
 var allNames = append(append([]string{}, names...), "fresh", "zz")
@@ -202,6 +215,15 @@ type env struct {
 	bySha   map[string]string
 	locs    map[string]string // md5 hex of location -> location
 	stampOf map[string]int64
+	api     *operations.BlackdaggerAPI
+}
+
+var apiSpec *loads.Document
+
+func httpCode(r middleware.Responder) int {
+	rec := httptest.NewRecorder()
+	r.WriteResponse(rec, oaruntime.JSONProducer())
+	return rec.Code
 }
 
 func newEnv(root string, pool []*Text) *env {
@@ -213,6 +235,16 @@ func newEnv(root string, pool []*Text) *env {
 	}
 	e.ds = dsclient.NewDataStores(e.dags, e.data, e.flags, dsclient.DataStoreOptions{LatestStatusToday: false})
 	e.cli = client.New(e.ds, "/nonexistent/blackdagger", root, logger.Default)
+	// the real API handler over the same client (delete / rename / save / details through it)
+	if apiSpec == nil {
+		spec, err := loads.Analyzed(restapi.SwaggerJSON, "")
+		if err != nil {
+			panic(err)
+		}
+		apiSpec = spec
+	}
+	e.api = operations.NewBlackdaggerAPI(apiSpec)
+	fdag.NewHandler(&fdag.NewHandlerArgs{Client: e.cli, LogEncodingCharset: "utf-8"}, nil, "/api/v1").Configure(e.api)
 	return e
 }
 
@@ -395,6 +427,27 @@ func (e *env) apply(op *Op) {
 		// what the handler's deleteDAG passes: the location of the loaded DAG
 		op.Loc = e.loc(op.Name)
 		err = e.cli.DeleteDAG(op.Name, op.Loc)
+	case "adelete":
+		op.Loc = e.loc(op.Name)
+		op.Code = httpCode(e.api.DagsDeleteDagHandler.Handle(dags.DeleteDagParams{DagID: op.Name}))
+	case "arename":
+		act := "rename"
+		op.Code = httpCode(e.api.DagsPostDagActionHandler.Handle(dags.PostDagActionParams{DagID: op.Name,
+			Body: dags.PostDagActionBody{Action: &act, Value: op.New}}))
+	case "asave":
+		act := "save"
+		op.Code = httpCode(e.api.DagsPostDagActionHandler.Handle(dags.PostDagActionParams{DagID: op.Name,
+			Body: dags.PostDagActionBody{Action: &act, Value: string(e.text(op.Text))}}))
+		if op.Code == 200 {
+			_, lerr := e.ds.DAGStore().GetDetails(op.Name)
+			ok := lerr == nil
+			op.Loads = &ok
+			if lerr != nil {
+				op.LoadErr = lerr.Error()
+			}
+		}
+	case "adetails":
+		op.Code = httpCode(e.api.DagsGetDagDetailsHandler.Handle(dags.GetDagDetailsParams{DagID: op.Name}))
 	case "list":
 		var ds []*dag.DAG
 		var errs []string
@@ -433,6 +486,12 @@ func (e *env) apply(op *Op) {
 		err = fmt.Errorf("unknown op %q", op.Op)
 	}
 	op.Res = classify(err)
+	if op.Code != 0 {
+		op.Res = fmt.Sprint(op.Code)
+		if op.Code == 200 {
+			op.Res = "ok"
+		}
+	}
 	if err != nil {
 		op.Err = err.Error()
 		if len(op.Err) > 300 {
@@ -477,7 +536,7 @@ func (g *gen) name(small bool) string {
 
 func (g *gen) textID() string {
 	// weights: valid ones more often; the 1 MiB text rarely (it is heavy)
-	k := g.r.Below(27)
+	k := g.r.Below(30)
 	switch {
 	case k < 5:
 		return "T1"
@@ -498,7 +557,7 @@ func (g *gen) textID() string {
 	case k < 23:
 		return "T8"
 	}
-	return []string{"T9", "T10", "T11"}[g.r.Below(3)]
+	return []string{"T9", "T10", "T11", "T12", "T13", "T12"}[g.r.Below(6)]
 }
 
 func (g *gen) freshStamp() int64 {
@@ -543,8 +602,11 @@ func (g *gen) op(small bool) Op {
 		return Op{Op: "rename", Name: g.name(small), New: g.name(small)}
 	case k < 58:
 		return Op{Op: "srename", Name: g.name(small), New: g.name(small)}
-	case k < 68:
+	case k < 64:
 		return Op{Op: "delete", Name: g.name(small)}
+	case k < 70:
+		return []Op{{Op: "adelete", Name: g.name(small)}, {Op: "arename", Name: g.name(small), New: g.name(small)},
+			{Op: "asave", Name: g.name(small), Text: g.textID()}, {Op: "adetails", Name: g.name(small)}}[g.r.Below(4)]
 	case k < 72:
 		return Op{Op: "list"}
 	case k < 76:
@@ -589,6 +651,28 @@ func generated(tier string, rng *vh.Rng) []*Case {
 			g0.stamp = map[int64]bool{}
 			add("delete-pair", []Op{{Op: "create", Name: n}, {Op: "create", Name: m}, g0.runOp(n), g0.runOp(m), g0.runOp(n),
 				{Op: "suspend", Name: m, On: true}, {Op: "delete", Name: n}, {Op: "get", Name: m}, {Op: "delete", Name: m}})
+		}
+	}
+	// rename onto a taken name, every ordered pair of names (incl. names that differ in letter case only)
+	for _, n := range names {
+		for _, m := range names {
+			if m == n {
+				continue
+			}
+			g0.stamp = map[int64]bool{}
+			add("rename-taken", []Op{{Op: "create", Name: n}, {Op: "create", Name: m}, {Op: "save", Name: n, Text: "T1"}, g0.runOp(n), g0.runOp(m),
+				{Op: "rename", Name: n, New: m}, {Op: "srename", Name: n, New: m}, {Op: "arename", Name: n, New: m}, {Op: "get", Name: m}})
+		}
+	}
+	// through the API handler, with definitions whose `name:` headline is another DAG's id (T12: b) or nobody's (T13)
+	for _, t := range []string{"T12", "T13", "T1"} {
+		for _, n := range []string{"ab", "a b", "A", "a.b"} {
+			g0.stamp = map[int64]bool{}
+			add("api-named", []Op{{Op: "create", Name: n}, {Op: "create", Name: "b"}, {Op: "asave", Name: n, Text: t}, g0.runOp(n), g0.runOp("b"),
+				{Op: "suspend", Name: "b", On: true}, {Op: "adetails", Name: n}, {Op: "arename", Name: n, New: "fresh"}, {Op: "adetails", Name: "fresh"},
+				{Op: "asave", Name: "fresh", Text: t}, {Op: "arename", Name: "fresh", New: n}, {Op: "adelete", Name: n}, {Op: "list"},
+				{Op: "adelete", Name: n}, {Op: "adelete", Name: "b"}})
+			add("api-named", []Op{{Op: "create", Name: n}, {Op: "asave", Name: n, Text: t}, g0.runOp(n), {Op: "adelete", Name: n}, {Op: "list"}})
 		}
 	}
 	// the 1 MiB text
